@@ -29,7 +29,41 @@ func runC18(c *Ctx) {
 	rulePreviousSig(c, "R18.3")
 	ruleMemDB(c, "R18.4")
 	ruleLenCountsContent(c, "R18.5")
+	rulePutAlwaysWrites(c, "R18.6")
+	ruleCursorReadsLikeGet(c, "R18.7")
 }
+
+// R18.6: a successful Put has written the beacon it was given. In the bolt back-ends the transaction closure returns nil
+// only through bucket.Put(key, bytes of that beacon): a shortcut that skips the write when "the same" beacon seems to be
+// stored already keeps the old value whenever the notion of sameness is narrower than the stored fields.
+func rulePutAlwaysWrites(c *Ctx, rule string) {
+	c.ranRules[rule] = true
+	n := 0
+	for _, key := range []string{"internal/chain/boltdb.(*BoltStore).Put", "internal/chain/boltdb.(*trimmedStore).Put"} {
+		fn := c.P.Fn(key)
+		if !c.Anchor(rule, key, fn != nil) {
+			continue
+		}
+		for _, ci := range callsIn(fn, func(ci ssa.CallInstruction) bool { return strings.HasSuffix(calleeName(ci), "bbolt.DB).Update") }) {
+			for _, cl := range funcValuesOf(ci.Common().Args[1]) {
+				n++
+				var put *ssa.Call
+				for _, f := range withClosures(cl) {
+					for _, pc := range callsIn(f, func(x ssa.CallInstruction) bool { return strings.HasSuffix(calleeName(x), "bbolt.Bucket).Put") }) {
+						if call, ok := pc.(*ssa.Call); ok && f == cl {
+							put = call
+						}
+					}
+				}
+				ok := put != nil && nilReturnImpliesOK(cl, put)
+				c.Ok(rule, fnShort(fn)+" writes the given beacon whenever it reports success", shortPos(c.P, ci), ok,
+					"every nil return of the transaction goes through bucket.Put")
+			}
+		}
+	}
+	c.Floor(rule, "write transactions of the bolt back-ends", n, 2)
+}
+
 
 // R18.5: Len reports what is stored. The bolt back-ends count the keys of the beacon bucket inside a read transaction
 // (bucket.Stats().KeyN); the in-memory back-end returns the length of its slice. A counter maintained on the side drifts
@@ -587,4 +621,32 @@ func ruleMemDB(c *Ctx, rule string) {
 		}
 		c.Ok(rule, fnShort(fn)+" returns only the element whose round equals the requested round", c.P.Pos(fn.Pos()), ok && n > 0, "")
 	}
+}
+
+// R18.7: in the trimmed bolt store a cursor reads a beacon the way Get does: the previous signature of round r is taken from
+// the stored value of round r-1 itself, without demanding that r-1's own predecessor be stored as well (the lookup of the
+// predecessor is made with "needs previous" off).
+func ruleCursorReadsLikeGet(c *Ctx, rule string) {
+	c.ranRules[rule] = true
+	fn := c.P.Fn("internal/chain/boltdb.(*trimmedStore).getCursorBeacon")
+	gb := c.P.Fn("internal/chain/boltdb.(*trimmedStore).getBeacon")
+	if !c.Anchor(rule, "internal/chain/boltdb.(*trimmedStore).getCursorBeacon", fn != nil) || gb == nil {
+		return
+	}
+	n := 0
+	for _, f := range []*ssa.Function{fn, gb} {
+		for _, ci := range callsIn(f, func(ci ssa.CallInstruction) bool { return ci.Common().StaticCallee() == gb }) {
+			a := ci.Common().Args
+			// a recursive / nested lookup of the predecessor: round-1 with canFetchPrevious == false
+			t, okT := termOf(a[3])
+			if !okT || t.off != -1 {
+				continue
+			}
+			n++
+			k, isK := a[len(a)-1].(*ssa.Const)
+			c.Ok(rule, fnShort(f)+" fetches the predecessor's signature without requiring the predecessor's predecessor", shortPos(c.P, ci),
+				isK && k.Value != nil && k.Value.ExactString() == "false", "getBeacon(round-1, canFetchPrevious=false)")
+		}
+	}
+	c.Floor(rule, "predecessor lookups in the trimmed store", n, 1)
 }
